@@ -52,6 +52,10 @@ CHECKS = {
  "C15": ("fault_enumeration", "EzFault.tla (SaveUnderFault) model-checked by TLC; every save-under-fault of the real library recorded as an event and validated by TLC against EzFaultTrace.tla (trace validation)",
          "Faults are enumerated against the real code through the operating system: unopenable destinations (missing directory, directory, read-only file as an unprivileged uid), /dev/full, and RLIMIT_FSIZE = k for every byte offset k of the smallest object and boundary / sampled offsets of four larger ones (thorough: every offset of every object). Each observation must be a step of the specification: normal return only with the complete content on disk, I/O failure otherwise.",
          "write errors the OS reports only at a later fsync are outside the model", "6/C15"),
+
+ "C16": ("exploration", "corruption space and outcome language specified in EzCorrupt.tla (TLC enumerates truncations, boundary overwrites, structure-aware field and pair corruptions from the decoder's own record parser); every load of the real reader recorded and validated by TLC against EzCorruptTrace.tla",
+         "TLC emits one descriptor per corruption that changes at least one byte of a seed file; each damaged file is loaded in a forked ASan/UBSan child with an allocation budget (64 x size + 16 MiB per request) and a wall-clock limit; the recorded outcome must be a Load step of the specification (loaded / refused by a standard exception); a signal, sanitizer report, non-standard exception, over-budget allocation or timeout has no action and rejects the trace.",
+         "seeds are files written by the real writer (plus a leading-zeros variant); overwrites sweep every 7th offset in quick and every offset in thorough; sensors: ASan/UBSan (float-cast-overflow excluded: not a memory error), replaced operator new, alarm()", "6/C16"),
 }
 NA = {
 }
